@@ -1,5 +1,5 @@
 (* C02 - CTAP2 response encoding carries every member under its specified key, exactly. *)
-From Ctap Require Import Base Schema Wire Typed Procs Inst Tables ProcTables Finite Canonical WireP SerP FramingP ObResponseSide ObRespTables FnShapes Shapes ObShapeResponse AgreeP ObResponseAgree Deps ObDeps ObShapeFilters.
+From Ctap Require Import Base Schema Wire Typed Procs Inst Tables ProcTables Finite Canonical WireP SerP FramingP ObResponseSide ObRespTables FnShapes Shapes ObShapeResponse AgreeP ObResponseAgree Deps ObDeps ObShapeFilters ObShapeBuilders ObShapeAccessors ObShapeTablesInfo.
 Local Open Scope string_scope.
 Local Open Scope Z_scope.
 
@@ -118,12 +118,21 @@ Theorem c02_modelled_functions_unchanged_response : shapes_hold fn_shapes shapes
 Proof. exact generated_shapes_response. Qed.
 
 (* the third-party crates the model represents by hand are pinned at the versions it was written against *)
-Theorem c02_modelled_dependencies_pinned : deps_hold lock_versions cargo_deps = true.
+Theorem c02_modelled_dependencies_pinned : deps_hold repo_lock_present lock_versions harness_lock_versions cargo_deps = true.
 Proof. exact generated_deps. Qed.
 
 (* further hand-modelled functions this property rests on *)
 Theorem c02_modelled_functions_unchanged_filters : shapes_hold fn_shapes shapes_filters = true.
 Proof. exact generated_shapes_filters. Qed.
+
+(* lookup tables, accessors, builders and further generators this property rests on *)
+Theorem c02_modelled_functions_unchanged_builders : shapes_hold fn_shapes shapes_builders = true.
+Proof. exact generated_shapes_builders. Qed.
+Theorem c02_modelled_functions_unchanged_accessors : shapes_hold fn_shapes shapes_accessors = true.
+Proof. exact generated_shapes_accessors. Qed.
+
+Theorem c02_modelled_functions_unchanged_tables_info : shapes_hold fn_shapes shapes_tables_info = true.
+Proof. exact generated_shapes_tables_info. Qed.
 
 Eval vm_compute in "ASSUMPTIONS c02_message". Print Assumptions c02_message.
 Eval vm_compute in "ASSUMPTIONS c02_parameterless". Print Assumptions c02_parameterless.
@@ -140,3 +149,6 @@ Eval vm_compute in "ASSUMPTIONS c02_generated_agreement". Print Assumptions c02_
 Eval vm_compute in "ASSUMPTIONS c02_generated_model_is_spec_model". Print Assumptions c02_generated_model_is_spec_model.
 Eval vm_compute in "ASSUMPTIONS c02_modelled_dependencies_pinned". Print Assumptions c02_modelled_dependencies_pinned.
 Eval vm_compute in "ASSUMPTIONS c02_modelled_functions_unchanged_filters". Print Assumptions c02_modelled_functions_unchanged_filters.
+Eval vm_compute in "ASSUMPTIONS c02_modelled_functions_unchanged_builders". Print Assumptions c02_modelled_functions_unchanged_builders.
+Eval vm_compute in "ASSUMPTIONS c02_modelled_functions_unchanged_accessors". Print Assumptions c02_modelled_functions_unchanged_accessors.
+Eval vm_compute in "ASSUMPTIONS c02_modelled_functions_unchanged_tables_info". Print Assumptions c02_modelled_functions_unchanged_tables_info.
